@@ -688,6 +688,12 @@ func genC08(c *Ctx) {
 	}
 	for i := 0; i < c.N(300, 3000); i++ {
 		text := genJournalC08(r, c.N(4, 8))
+		if i%4 == 3 {
+			// one journal in four with CRLF line ends (same oracle: a CR belongs to the line end,
+			// no range may count it as a character of the line)
+			text = strings.ReplaceAll(text, "\n", "\r\n")
+			c.Count("docs.crlf")
+		}
 		c.Emit("c08.doc", c08Doc(c, text, true))
 	}
 	// journals dense in characters outside the BMP (the server converts rune columns to UTF-16
@@ -696,9 +702,8 @@ func genC08(c *Ctx) {
 		c.Count("docs.nonbmp-dense")
 		c.Emit("c08.doc", c08Doc(c, genJournalC08nb(r, c.N(4, 8), true), true))
 	}
-	// CRLF journals (G allows them; the parser does not cope: C03) and free text: totality and
-	// correspondence only where the driver says so
-	for i := 0; i < c.N(6, 150); i++ {
+	// small CRLF journals, and free text (totality and correspondence only)
+	for i := 0; i < c.N(20, 150); i++ {
 		text := strings.ReplaceAll(genJournalC08(r, 3), "\n", "\r\n")
 		c.Count("docs.crlf")
 		c.Emit("c08.doc", c08Doc(c, text, true))
